@@ -18,6 +18,7 @@ RULE = ('data: all bit strings of length 0..10 + 6 patterns (0s, 1s, alternating
         'and 1024 refused. A case is one (cell description, route); non-trivial = has refs or unaligned data; states = distinct cell '
         'descriptions (reference hashes); transitions = library constructions/conversions; traces = cells whose hash/depth/equality '
         'were compared with the reference model')
+RULE += ' Fifth session: cells of a user subclass of Cell (parsed, constructed, copied; == in both directions and != over the equality pool); route slice_consumed (to_cell() of a partly consumed slice, with to_cell() calls on the way); family over-exotic: ordinary cells over every 1-, 2-, 3-combination of {pruned branch mask 1..7, library reference, Merkle proof, leaf} and one ordinary cell above: level mask, hash(l), depth(l) for l = 0..3, representation hash == hash, through builder / constructor / copy / slice / to_builder / bag of cells.'
 LEVEL_TEXT = ('Bounded-exhaustive exploration of the real Cell/Builder/Slice/BoC construction routes: all bit lengths 0..1023, all reference '
               'counts, all DAG shapes up to 4 distinct cells, the depth limit, with hash(level), depth(level), recomputed representation '
               'hash, equality and dict-key behaviour compared with an independent recursive reference model on every case.')
